@@ -78,6 +78,13 @@ CHECKS = {
          "with the name, and both elaborations give the same name sets.",
          "Trusted: the 10-line name splitter. Depth 2 only; set_param trees are not exercised.",
          "DESIGN.md 6.C14", "E1"),
+ "C15": ("model_checking",
+         "explicit-state exploration over histories of replace_component calls on a real elaborated design; differential oracle vs the from-scratch build (metadata, simulation) + object-graph reachability sweep",
+         "Every history of length <= 2 (3) of replace_component / replace_component_with_obj over 5 positions (top child, list elements, grand-child, list element below a non-top parent) "
+         "and 8 classes (comb, ff, nested child + const + slice connection + U<U, RD/WR constraints, lambdas, slicing blocks, CL with update_once + M constraints, internal method net) is applied; "
+         "all queryable metadata is compared by name with the design built directly, both are simulated over all input sequences of length 2, and nothing of a removed subtree may be reachable from top.",
+         "Trusted: the canonicalisation in meta() (names only). One hierarchy shape; add_value_port/add_connection APIs are not explored.",
+         "DESIGN.md 6.C15", "E1"),
 }
 
 NOT_YET = {}
